@@ -486,6 +486,10 @@ class SpecEval:
             return SV(w.Iface.ref(v.t), ty)
         if name == 'itag':
             return SV(w.Iface.tag(self.ev(args[0]).t), 'int')
+        if name == 'iface':
+            # iface(x, "T"): the interface value holding the pointer x with dynamic type T (what MakeInterface builds)
+            ty = resolve_type(w, self.type_from_ast(args[1]), self.pkg)
+            return SV(w.Iface.mk_iface(z3.IntVal(w.tag(ty)), self.ev(args[0]).t), 'iface')
         if name == 'typetag':
             ty = resolve_type(w, self.type_from_ast(args[0]), self.pkg)
             return SV(z3.IntVal(w.tag(ty)), 'int')
